@@ -3,4 +3,960 @@ import LA.Model.Unicode
 namespace LA.Unicode
 open LA.Gen.Utf8Table
 
+/-! ### the extracted table `utf8_count` -/
+
+/-- What the table is expected to say about a lead byte. -/
+def leadClass (ch : Nat) : Nat :=
+  if ch < 0x80 then 1 else if ch < 0xc2 then 0 else if ch < 0xe0 then 2
+  else if ch < 0xf0 then 3 else if ch < 0xf5 then 4 else 0
+
+def tableAgrees : List Nat → Nat → Bool
+  | [], _ => true
+  | v :: r, i => v == leadClass i && tableAgrees r (i + 1)
+
+theorem tableAgrees_getD (l : List Nat) (i : Nat) (h : tableAgrees l i = true) (j : Nat) :
+    l.getD j 0 = if j < l.length then leadClass (i + j) else 0 := by
+  induction l generalizing i j with
+  | nil => simp
+  | cons v r ih =>
+    simp only [tableAgrees, Bool.and_eq_true, beq_iff_eq] at h
+    cases j with
+    | zero => simp [h.1]
+    | succ j =>
+      have := ih (i + 1) h.2 j
+      simp only [List.getD_cons_succ, List.length_cons, Nat.add_lt_add_iff_right]
+      rw [this]; congr 2; omega
+
+/-- Table lemma (checked against the regenerated `Gen/Utf8Table` on every build). -/
+theorem utf8Count_agrees : tableAgrees utf8Count 0 = true := by decide +kernel
+
+theorem utf8Count_length : utf8Count.length = 256 := by decide +kernel
+
+theorem count_spec (ch : Nat) : utf8Count.getD ch 0 = leadClass ch := by
+  rw [tableAgrees_getD utf8Count 0 utf8Count_agrees ch, utf8Count_length]
+  split
+  · simp
+  · simp only [leadClass]; repeat' split
+    all_goals omega
+
+/-! ### `_utf8_to_unicode` by cases -/
+
+theorem contScan_bounds (xs : List Nat) (i k c : Nat) (h : contScan xs i k = some c) : i ≤ c ∧ c ≤ i + k := by
+  induction k generalizing i with
+  | zero => simp [contScan] at h; omega
+  | succ k ih =>
+    simp only [contScan] at h
+    split at h
+    · simp at h
+    · split at h
+      · have := ih (i + 1) h; omega
+      · simp at h; omega
+
+theorem contScan_none (xs : List Nat) (i k : Nat) (h : contScan xs i k = none) : xs.length < i + k := by
+  induction k generalizing i with
+  | zero => simp [contScan] at h
+  | succ k ih =>
+    simp only [contScan] at h
+    split at h
+    · rename_i hn; simp at hn; omega
+    · split at h
+      · have := ih (i + 1) h; omega
+      · simp at h
+
+/-- Everything `_utf8_to_unicode` can answer, by cases. -/
+inductive Utf8RawSpec (xs : List Nat) (n : Nat) : Dec → Prop
+  | endN : n = 0 → Utf8RawSpec xs n (.ret 0 none)
+  | endNul : 0 < n → xs[0]? = some 0 → Utf8RawSpec xs n (.ret 0 none)
+  | oob : xs.length < n → Utf8RawSpec xs n .oob
+  | bad (c : Nat) : 1 ≤ c → c ≤ n → Utf8RawSpec xs n (.ret (-(c : Int)) (some unicodeRChar))
+  | ok1 (ch : Nat) : xs[0]? = some ch → 0 < ch → ch < 0x80 → 1 ≤ n → Utf8RawSpec xs n (.ret 1 (some ch))
+  | ok2 (ch b1 : Nat) : xs[0]? = some ch → xs[1]? = some b1 → 0xc2 ≤ ch → ch < 0xe0 → b1 / 64 = 2 → 2 ≤ n →
+      Utf8RawSpec xs n (.ret 2 (some (ch % 32 * 64 + b1 % 64)))
+  | ok3 (ch b1 b2 : Nat) : xs[0]? = some ch → xs[1]? = some b1 → xs[2]? = some b2 → 0xe0 ≤ ch → ch < 0xf0 →
+      b1 / 64 = 2 → b2 / 64 = 2 → 3 ≤ n → 0x800 ≤ ch % 16 * 4096 + b1 % 64 * 64 + b2 % 64 →
+      Utf8RawSpec xs n (.ret 3 (some (ch % 16 * 4096 + b1 % 64 * 64 + b2 % 64)))
+  | ok4 (ch b1 b2 b3 : Nat) : xs[0]? = some ch → xs[1]? = some b1 → xs[2]? = some b2 → xs[3]? = some b3 →
+      0xf0 ≤ ch → ch < 0xf5 → b1 / 64 = 2 → b2 / 64 = 2 → b3 / 64 = 2 → 4 ≤ n →
+      0x10000 ≤ ch % 8 * 262144 + b1 % 64 * 4096 + b2 % 64 * 64 + b3 % 64 →
+      ch % 8 * 262144 + b1 % 64 * 4096 + b2 % 64 * 64 + b3 % 64 ≤ unicodeMax →
+      Utf8RawSpec xs n (.ret 4 (some (ch % 8 * 262144 + b1 % 64 * 4096 + b2 % 64 * 64 + b3 % 64)))
+
+theorem getElem?_none_lt {xs : List Nat} {i n : Nat} (h : xs[i]? = none) (hi : i < n) : xs.length < n := by
+  simp at h; omega
+
+theorem isCont_iff (b : Nat) : isCont b = true ↔ b / 64 = 2 := by simp [isCont]
+
+theorem leadClass_1 (ch : Nat) : leadClass ch = 1 ↔ ch < 0x80 := by
+  simp only [leadClass]; repeat' split
+  all_goals omega
+theorem leadClass_2 (ch : Nat) : leadClass ch = 2 ↔ 0xc2 ≤ ch ∧ ch < 0xe0 := by
+  simp only [leadClass]; repeat' split
+  all_goals omega
+theorem leadClass_3 (ch : Nat) : leadClass ch = 3 ↔ 0xe0 ≤ ch ∧ ch < 0xf0 := by
+  simp only [leadClass]; repeat' split
+  all_goals omega
+theorem leadClass_4 (ch : Nat) : leadClass ch = 4 ↔ 0xf0 ≤ ch ∧ ch < 0xf5 := by
+  simp only [leadClass]; repeat' split
+  all_goals omega
+
+theorem utf8Raw_spec (xs : List Nat) (n : Nat) : Utf8RawSpec xs n (utf8Raw xs n) := by
+  unfold utf8Raw
+  by_cases hn : n = 0
+  · simp only [hn, if_true]; exact .endN rfl
+  simp only [hn, if_false]
+  cases h0 : xs[0]? with
+  | none => exact .oob (getElem?_none_lt h0 (by omega))
+  | some ch =>
+  simp only []
+  by_cases hch : ch = 0
+  · simp only [hch, if_true]; exact .endNul (by omega) (by simp [h0, hch])
+  simp only [hch, if_false, count_spec]
+  by_cases hlt : n < leadClass ch
+  · simp only [hlt, if_true]
+    cases hc : contScan xs 1 (n - 1) with
+    | none => exact .oob (by have := contScan_none _ _ _ hc; omega)
+    | some c => have := contScan_bounds _ _ _ _ hc; exact .bad c (by omega) (by omega)
+  simp only [hlt, if_false]
+  by_cases h1 : leadClass ch = 1
+  · simp only [h1, if_true]
+    have := (leadClass_1 ch).1 h1
+    rw [Nat.mod_eq_of_lt (by omega)]
+    exact .ok1 ch h0 (by omega) this (by omega)
+  simp only [h1, if_false]
+  by_cases h2 : leadClass ch = 2
+  · simp only [h2, if_true]
+    have hc2 := (leadClass_2 ch).1 h2
+    cases hb1 : xs[1]? with
+    | none => exact .oob (getElem?_none_lt hb1 (by omega))
+    | some b1 =>
+    simp only []
+    rcases Bool.eq_false_or_eq_true (isCont b1) with c1 | c1
+    · simp only [c1, Bool.not_true, Bool.false_eq_true, ↓reduceIte]
+      exact .ok2 ch b1 h0 hb1 hc2.1 hc2.2 ((isCont_iff b1).1 c1) (by omega)
+    · simp only [c1, Bool.not_false, ↓reduceIte]; exact .bad 1 (by omega) (by omega)
+  simp only [h2, if_false]
+  by_cases h3 : leadClass ch = 3
+  · simp only [h3, if_true]
+    have hc3 := (leadClass_3 ch).1 h3
+    cases hb1 : xs[1]? with
+    | none => exact .oob (getElem?_none_lt hb1 (by omega))
+    | some b1 =>
+    simp only []
+    rcases Bool.eq_false_or_eq_true (isCont b1) with c1 | c1
+    case inr => simp only [c1, Bool.not_false, ↓reduceIte]; exact .bad 1 (by omega) (by omega)
+    simp only [c1, Bool.not_true, Bool.false_eq_true, ↓reduceIte]
+    cases hb2 : xs[2]? with
+    | none => exact .oob (getElem?_none_lt hb2 (by omega))
+    | some b2 =>
+    simp only []
+    rcases Bool.eq_false_or_eq_true (isCont b2) with c2 | c2
+    case inr => simp only [c2, Bool.not_false, ↓reduceIte]; exact .bad 2 (by omega) (by omega)
+    simp only [c2, Bool.not_true, Bool.false_eq_true, ↓reduceIte]
+    by_cases hov : ch % 16 * 4096 + b1 % 64 * 64 + b2 % 64 < 0x800
+    · simp only [hov, if_true]; exact .bad 3 (by omega) (by omega)
+    simp only [hov, if_false, utf8Final]
+    by_cases hmx : ch % 16 * 4096 + b1 % 64 * 64 + b2 % 64 > unicodeMax
+    · simp only [hmx, if_true]; exact .bad 3 (by omega) (by omega)
+    simp only [hmx, if_false]
+    exact .ok3 ch b1 b2 h0 hb1 hb2 hc3.1 hc3.2 ((isCont_iff b1).1 c1) ((isCont_iff b2).1 c2) (by omega) (by omega)
+  simp only [h3, if_false]
+  by_cases h4 : leadClass ch = 4
+  · simp only [h4, if_true]
+    have hc4 := (leadClass_4 ch).1 h4
+    cases hb1 : xs[1]? with
+    | none => exact .oob (getElem?_none_lt hb1 (by omega))
+    | some b1 =>
+    simp only []
+    rcases Bool.eq_false_or_eq_true (isCont b1) with c1 | c1
+    case inr => simp only [c1, Bool.not_false, ↓reduceIte]; exact .bad 1 (by omega) (by omega)
+    simp only [c1, Bool.not_true, Bool.false_eq_true, ↓reduceIte]
+    cases hb2 : xs[2]? with
+    | none => exact .oob (getElem?_none_lt hb2 (by omega))
+    | some b2 =>
+    simp only []
+    rcases Bool.eq_false_or_eq_true (isCont b2) with c2 | c2
+    case inr => simp only [c2, Bool.not_false, ↓reduceIte]; exact .bad 2 (by omega) (by omega)
+    simp only [c2, Bool.not_true, Bool.false_eq_true, ↓reduceIte]
+    cases hb3 : xs[3]? with
+    | none => exact .oob (getElem?_none_lt hb3 (by omega))
+    | some b3 =>
+    simp only []
+    rcases Bool.eq_false_or_eq_true (isCont b3) with c3 | c3
+    case inr => simp only [c3, Bool.not_false, ↓reduceIte]; exact .bad 3 (by omega) (by omega)
+    simp only [c3, Bool.not_true, Bool.false_eq_true, ↓reduceIte]
+    by_cases hov : ch % 8 * 262144 + b1 % 64 * 4096 + b2 % 64 * 64 + b3 % 64 < 0x10000
+    · simp only [hov, if_true]; exact .bad 4 (by omega) (by omega)
+    simp only [hov, if_false, utf8Final]
+    by_cases hmx : ch % 8 * 262144 + b1 % 64 * 4096 + b2 % 64 * 64 + b3 % 64 > unicodeMax
+    · simp only [hmx, if_true]; exact .bad 4 (by omega) (by omega)
+    simp only [hmx, if_false]
+    exact .ok4 ch b1 b2 b3 h0 hb1 hb2 hb3 hc4.1 hc4.2 ((isCont_iff b1).1 c1) ((isCont_iff b2).1 c2)
+      ((isCont_iff b3).1 c3) (by omega) (by omega) (by omega)
+  simp only [h4, if_false]
+  generalize hc0 : (if ch = 0xc0 ∨ ch = 0xc1 then 2 else if 0xf5 ≤ ch ∧ ch ≤ 0xf7 then 4
+      else if 0xf8 ≤ ch ∧ ch ≤ 0xfb then 5 else if ch = 0xfc ∨ ch = 0xfd then 6 else 1) = c0
+  have hc0' : 1 ≤ c0 := by
+    rw [← hc0]; repeat' split
+    all_goals omega
+  cases hc : contScan xs 1 ((if n < c0 then n else c0) - 1) with
+  | none =>
+    refine .oob ?_
+    have := contScan_none _ _ _ hc
+    split at this <;> omega
+  | some c =>
+    have := contScan_bounds _ _ _ _ hc
+    refine .bad c (by omega) ?_
+    split at this <;> omega
+
+/-! ### `_utf8_to_unicode` on well-formed input -/
+
+theorem utf8Raw_ok1 (ch : Nat) (rest : List Nat) (n : Nat) (h0 : 0 < ch) (h : ch < 0x80) (hn : 1 ≤ n) :
+    utf8Raw (ch :: rest) n = .ret 1 (some ch) := by
+  have hl := (leadClass_1 ch).2 h
+  have : ch % 128 = ch := Nat.mod_eq_of_lt h
+  have hn0 : n ≠ 0 := by omega
+  have hc0 : ch ≠ 0 := by omega
+  have hlt : ¬ n < 1 := by omega
+  unfold utf8Raw
+  simp only [List.getElem?_cons_zero, List.getElem?_cons_succ, count_spec, hl, hn0, hc0, hlt, ↓reduceIte, this]
+
+theorem utf8Raw_ok2 (ch b1 : Nat) (rest : List Nat) (n : Nat) (h : 0xc2 ≤ ch) (h' : ch < 0xe0)
+    (hb1 : b1 / 64 = 2) (hn : 2 ≤ n) :
+    utf8Raw (ch :: b1 :: rest) n = .ret 2 (some (ch % 32 * 64 + b1 % 64)) := by
+  have hl := (leadClass_2 ch).2 ⟨h, h'⟩
+  have hn0 : n ≠ 0 := by omega
+  have hc0 : ch ≠ 0 := by omega
+  have hlt : ¬ n < 2 := by omega
+  unfold utf8Raw
+  simp only [List.getElem?_cons_zero, List.getElem?_cons_succ, count_spec, hl, hn0, hc0, hlt, ↓reduceIte]
+  simp [isCont, hb1]
+
+theorem utf8Raw_ok3 (ch b1 b2 : Nat) (rest : List Nat) (n : Nat) (h : 0xe0 ≤ ch) (h' : ch < 0xf0)
+    (hb1 : b1 / 64 = 2) (hb2 : b2 / 64 = 2) (hn : 3 ≤ n)
+    (hov : 0x800 ≤ ch % 16 * 4096 + b1 % 64 * 64 + b2 % 64) :
+    utf8Raw (ch :: b1 :: b2 :: rest) n = .ret 3 (some (ch % 16 * 4096 + b1 % 64 * 64 + b2 % 64)) := by
+  have hl := (leadClass_3 ch).2 ⟨h, h'⟩
+  have hn0 : n ≠ 0 := by omega
+  have hc0 : ch ≠ 0 := by omega
+  have hlt : ¬ n < 3 := by omega
+  have hov' : ¬ ch % 16 * 4096 + b1 % 64 * 64 + b2 % 64 < 2048 := by omega
+  have hmx : ¬ (ch % 16 * 4096 + b1 % 64 * 64 + b2 % 64 > unicodeMax) := by simp [unicodeMax]; omega
+  unfold utf8Raw
+  simp only [List.getElem?_cons_zero, List.getElem?_cons_succ, count_spec, hl, hn0, hc0, hlt, ↓reduceIte]
+  simp [isCont, hb1, hb2, utf8Final, hmx, hov']
+
+theorem utf8Raw_ok4 (ch b1 b2 b3 : Nat) (rest : List Nat) (n : Nat) (h : 0xf0 ≤ ch) (h' : ch < 0xf5)
+    (hb1 : b1 / 64 = 2) (hb2 : b2 / 64 = 2) (hb3 : b3 / 64 = 2) (hn : 4 ≤ n)
+    (hov : 0x10000 ≤ ch % 8 * 262144 + b1 % 64 * 4096 + b2 % 64 * 64 + b3 % 64)
+    (hmx : ch % 8 * 262144 + b1 % 64 * 4096 + b2 % 64 * 64 + b3 % 64 ≤ unicodeMax) :
+    utf8Raw (ch :: b1 :: b2 :: b3 :: rest) n =
+      .ret 4 (some (ch % 8 * 262144 + b1 % 64 * 4096 + b2 % 64 * 64 + b3 % 64)) := by
+  have hl := (leadClass_4 ch).2 ⟨h, h'⟩
+  have hn0 : n ≠ 0 := by omega
+  have hc0 : ch ≠ 0 := by omega
+  have hlt : ¬ n < 4 := by omega
+  have hov' : ¬ ch % 8 * 262144 + b1 % 64 * 4096 + b2 % 64 * 64 + b3 % 64 < 65536 := by omega
+  have hmx' : ¬ (ch % 8 * 262144 + b1 % 64 * 4096 + b2 % 64 * 64 + b3 % 64 > unicodeMax) := by omega
+  unfold utf8Raw
+  simp only [List.getElem?_cons_zero, List.getElem?_cons_succ, count_spec, hl, hn0, hc0, hlt, ↓reduceIte]
+  simp [isCont, hb1, hb2, hb3, utf8Final, hmx', hov']
+
+/-! ### `unicode_to_utf8` by ranges, and decode ∘ encode -/
+
+theorem enc8_1 (c r : Nat) (h : c ≤ 0x7f) (hr : 0 < r) : unicodeToUtf8 r c = [c] := by
+  have h1 : ¬ c > unicodeMax := by simp [unicodeMax]; omega
+  have h2 : r ≠ 0 := by omega
+  simp [unicodeToUtf8, h1, h, h2]
+
+theorem enc8_2 (c r : Nat) (h1 : 0x7f < c) (h2 : c ≤ 0x7ff) (hr : 2 ≤ r) :
+    unicodeToUtf8 r c = [0xc0 + c / 64 % 32, 0x80 + c % 64] := by
+  have h0 : ¬ c > unicodeMax := by simp [unicodeMax]; omega
+  have h3 : ¬ c ≤ 0x7f := by omega
+  have h4 : ¬ r < 2 := by omega
+  simp [unicodeToUtf8, h0, h3, h2, h4]
+
+theorem enc8_3 (c r : Nat) (h1 : 0x7ff < c) (h2 : c ≤ 0xffff) (hr : 3 ≤ r) :
+    unicodeToUtf8 r c = [0xe0 + c / 4096 % 16, 0x80 + c / 64 % 64, 0x80 + c % 64] := by
+  have h0 : ¬ c > unicodeMax := by simp [unicodeMax]; omega
+  have h3 : ¬ c ≤ 0x7f := by omega
+  have h3' : ¬ c ≤ 0x7ff := by omega
+  have h4 : ¬ r < 3 := by omega
+  simp [unicodeToUtf8, h0, h3, h3', h2, h4]
+
+theorem enc8_4 (c r : Nat) (h1 : 0xffff < c) (h2 : c ≤ unicodeMax) (hr : 4 ≤ r) :
+    unicodeToUtf8 r c = [0xf0 + c / 262144 % 8, 0x80 + c / 4096 % 64, 0x80 + c / 64 % 64, 0x80 + c % 64] := by
+  have h0 : ¬ c > unicodeMax := by omega
+  have h3 : ¬ c ≤ 0x7f := by omega
+  have h3' : ¬ c ≤ 0x7ff := by omega
+  have h3'' : ¬ c ≤ 0xffff := by omega
+  have h4 : ¬ r < 4 := by omega
+  simp [unicodeToUtf8, h0, h3, h3', h3'', h4]
+
+/-- `_utf8_to_unicode` inverts `unicode_to_utf8` on every code point 1..U+10FFFF (surrogates included). -/
+theorem utf8Raw_encode (c : Nat) (hc : 0 < c) (hmax : c ≤ unicodeMax) (rest : List Nat) (n : Nat)
+    (hn : (unicodeToUtf8 4 c).length ≤ n) :
+    utf8Raw (unicodeToUtf8 4 c ++ rest) n = .ret (unicodeToUtf8 4 c).length (some c) := by
+  have hm : unicodeMax = 0x10FFFF := rfl
+  by_cases h1 : c ≤ 0x7f
+  · rw [enc8_1 c 4 h1 (by omega)] at hn ⊢
+    simp only [List.cons_append, List.nil_append, List.length_cons, List.length_nil] at hn ⊢
+    rw [utf8Raw_ok1 c rest n hc (by omega) (by omega)]; rfl
+  by_cases h2 : c ≤ 0x7ff
+  · rw [enc8_2 c 4 (by omega) h2 (by omega)] at hn ⊢
+    simp only [List.cons_append, List.nil_append, List.length_cons, List.length_nil] at hn ⊢
+    rw [utf8Raw_ok2 _ _ rest n (by omega) (by omega) (by omega) (by omega)]
+    congr 2; omega
+  by_cases h3 : c ≤ 0xffff
+  · rw [enc8_3 c 4 (by omega) h3 (by omega)] at hn ⊢
+    simp only [List.cons_append, List.nil_append, List.length_cons, List.length_nil] at hn ⊢
+    rw [utf8Raw_ok3 _ _ _ rest n (by omega) (by omega) (by omega) (by omega) (by omega) (by omega)]
+    congr 2; omega
+  · rw [enc8_4 c 4 (by omega) hmax (by omega)] at hn ⊢
+    simp only [List.cons_append, List.nil_append, List.length_cons, List.length_nil] at hn ⊢
+    rw [utf8Raw_ok4 _ _ _ _ rest n (by omega) (by omega) (by omega) (by omega) (by omega) (by omega) (by omega) (by omega)]
+    congr 2; omega
+
+/-! ### consequences of the case analysis of `_utf8_to_unicode` -/
+
+theorem take1 {xs : List Nat} {a : Nat} (h0 : xs[0]? = some a) : xs.take 1 = [a] := by
+  match xs, h0 with
+  | x :: _, h0 => simp at h0; simp [h0]
+
+theorem take2 {xs : List Nat} {a b : Nat} (h0 : xs[0]? = some a) (h1 : xs[1]? = some b) : xs.take 2 = [a, b] := by
+  match xs, h0, h1 with
+  | x :: y :: _, h0, h1 => simp at h0 h1; simp [h0, h1]
+
+theorem take3 {xs : List Nat} {a b c : Nat} (h0 : xs[0]? = some a) (h1 : xs[1]? = some b) (h2 : xs[2]? = some c) :
+    xs.take 3 = [a, b, c] := by
+  match xs, h0, h1, h2 with
+  | x :: y :: z :: _, h0, h1, h2 => simp at h0 h1 h2; simp [h0, h1, h2]
+
+theorem take4 {xs : List Nat} {a b c d : Nat} (h0 : xs[0]? = some a) (h1 : xs[1]? = some b) (h2 : xs[2]? = some c)
+    (h3 : xs[3]? = some d) : xs.take 4 = [a, b, c, d] := by
+  match xs, h0, h1, h2, h3 with
+  | x :: y :: z :: w :: _, h0, h1, h2, h3 => simp at h0 h1 h2 h3; simp [h0, h1, h2, h3]
+
+/-- A positive return of `_utf8_to_unicode` means: the bytes consumed are exactly what
+`unicode_to_utf8` writes for the code point stored (shortest form), 1 ≤ it ≤ U+10FFFF. -/
+theorem utf8Raw_canonical (xs : List Nat) (n : Nat) (r : Int) (uc : Option Nat)
+    (h : utf8Raw xs n = .ret r uc) (hr : 0 < r) :
+    ∃ c, uc = some c ∧ 0 < c ∧ c ≤ unicodeMax ∧ xs.take r.toNat = unicodeToUtf8 4 c ∧
+      r.toNat = (unicodeToUtf8 4 c).length ∧ r.toNat ≤ n := by
+  have hm : unicodeMax = 0x10FFFF := rfl
+  have hs := utf8Raw_spec xs n
+  rw [h] at hs
+  cases hs with
+  | endN => omega
+  | endNul => omega
+  | bad c => omega
+  | ok1 ch h0 hp hlt hn =>
+    refine ⟨ch, rfl, hp, by omega, ?_, ?_, by simpa using hn⟩
+    · rw [enc8_1 ch 4 (by omega) (by omega)]; exact take1 h0
+    · rw [enc8_1 ch 4 (by omega) (by omega)]; rfl
+  | ok2 ch b1 h0 h1 hlo hhi c1 hn =>
+    refine ⟨_, rfl, by omega, by omega, ?_, ?_, by simpa using hn⟩
+    · rw [enc8_2 _ 4 (by omega) (by omega) (by omega)]
+      have := take2 h0 h1
+      rw [show (2 : Int).toNat = 2 from rfl, this]; congr 1
+      · omega
+      · congr 1; omega
+    · rw [enc8_2 _ 4 (by omega) (by omega) (by omega)]; rfl
+  | ok3 ch b1 b2 h0 h1 h2 hlo hhi c1 c2 hn hov =>
+    refine ⟨_, rfl, by omega, by omega, ?_, ?_, by simpa using hn⟩
+    · rw [enc8_3 _ 4 (by omega) (by omega) (by omega)]
+      rw [show (3 : Int).toNat = 3 from rfl, take3 h0 h1 h2]; congr 1
+      · omega
+      · congr 1
+        · omega
+        · congr 1; omega
+    · rw [enc8_3 _ 4 (by omega) (by omega) (by omega)]; rfl
+  | ok4 ch b1 b2 b3 h0 h1 h2 h3 hlo hhi c1 c2 c3 hn hov hmx =>
+    refine ⟨_, rfl, by omega, hmx, ?_, ?_, by simpa using hn⟩
+    · rw [enc8_4 _ 4 (by omega) hmx (by omega)]
+      rw [show (4 : Int).toNat = 4 from rfl, take4 h0 h1 h2 h3]; congr 1
+      · omega
+      · congr 1
+        · omega
+        · congr 1
+          · omega
+          · congr 1; omega
+    · rw [enc8_4 _ 4 (by omega) hmx (by omega)]; rfl
+
+/-- Every return value other than 0 consumes between 1 and `n` bytes. -/
+theorem utf8Raw_progress (xs : List Nat) (n : Nat) (r : Int) (uc : Option Nat)
+    (h : utf8Raw xs n = .ret r uc) (hr : r ≠ 0) : 1 ≤ r.natAbs ∧ r.natAbs ≤ n := by
+  have hs := utf8Raw_spec xs n
+  rw [h] at hs
+  cases hs <;> omega
+
+/-- A negative return stores U+FFFD. -/
+theorem utf8Raw_neg (xs : List Nat) (n : Nat) (r : Int) (uc : Option Nat)
+    (h : utf8Raw xs n = .ret r uc) (hr : r < 0) : uc = some unicodeRChar := by
+  have hs := utf8Raw_spec xs n
+  rw [h] at hs
+  cases hs <;> first | rfl | omega
+
+/-- Return value 0 exactly at the end of the string: no bytes left or a NUL byte. -/
+theorem utf8Raw_zero (xs : List Nat) (n : Nat) (r : Int) (uc : Option Nat)
+    (h : utf8Raw xs n = .ret r uc) : r = 0 ↔ (n = 0 ∨ xs[0]? = some 0) := by
+  constructor
+  · intro hr
+    have hs := utf8Raw_spec xs n
+    rw [h] at hs
+    cases hs with
+    | endN hn => exact .inl hn
+    | endNul _ h0 => exact .inr h0
+    | _ => omega
+  · intro hz
+    unfold utf8Raw at h
+    rcases hz with hz | hz
+    · simp [hz] at h; omega
+    · by_cases hn : n = 0
+      · simp [hn] at h; omega
+      · simp [hn, hz] at h; omega
+
+/-- No read outside the block when the block holds at least `n` bytes. -/
+theorem utf8Raw_no_oob (xs : List Nat) (n : Nat) (hn : n ≤ xs.length) : utf8Raw xs n ≠ .oob := by
+  intro h
+  have hs := utf8Raw_spec xs n
+  rw [h] at hs
+  cases hs; omega
+
+/-! ### surrogate predicates as arithmetic -/
+
+theorem isHigh_iff (uc : Nat) : isHigh uc = true ↔ 0xD800 ≤ uc ∧ uc ≤ 0xDBFF := by
+  unfold isHigh highSurrogateLo highSurrogateHi
+  rw [Bool.and_eq_true, decide_eq_true_iff, decide_eq_true_iff]
+theorem isLow_iff (uc : Nat) : isLow uc = true ↔ 0xDC00 ≤ uc ∧ uc ≤ 0xDFFF := by
+  unfold isLow lowSurrogateLo lowSurrogateHi
+  rw [Bool.and_eq_true, decide_eq_true_iff, decide_eq_true_iff]
+theorem isSurrogate_iff (uc : Nat) : isSurrogate uc = true ↔ 0xD800 ≤ uc ∧ uc ≤ 0xDFFF := by
+  unfold isSurrogate surrogateLo surrogateHi
+  rw [Bool.and_eq_true, decide_eq_true_iff, decide_eq_true_iff]
+
+/-- Unicode scalar value: at most U+10FFFF and not a surrogate. -/
+def IsScalar (c : Nat) : Prop := c ≤ unicodeMax ∧ ¬ (surrogateLo ≤ c ∧ c ≤ surrogateHi)
+
+theorem isScalar_iff (c : Nat) : IsScalar c ↔ c ≤ 0x10FFFF ∧ ¬ (0xD800 ≤ c ∧ c ≤ 0xDFFF) := by
+  simp [IsScalar, unicodeMax, surrogateLo, surrogateHi]
+
+theorem isSurrogate_false_of_scalar {c : Nat} (h : IsScalar c) : isSurrogate c = false := by
+  have := (isScalar_iff c).1 h
+  cases hs : isSurrogate c
+  · rfl
+  · have := (isSurrogate_iff c).1 hs; omega
+
+/-! ### `utf8_to_unicode` -/
+
+theorem utf8ToUnicode_encode (c : Nat) (hc : 0 < c) (hs : IsScalar c) (rest : List Nat) (n : Nat)
+    (hn : (unicodeToUtf8 4 c).length ≤ n) :
+    utf8ToUnicode (unicodeToUtf8 4 c ++ rest) n = .ret (unicodeToUtf8 4 c).length (some c) := by
+  unfold utf8ToUnicode
+  rw [utf8Raw_encode c hc hs.1 rest n hn]
+  simp [isSurrogate_false_of_scalar hs]
+
+theorem utf8ToUnicode_canonical (xs : List Nat) (n : Nat) (r : Int) (uc : Option Nat)
+    (h : utf8ToUnicode xs n = .ret r uc) (hr : 0 < r) :
+    ∃ c, uc = some c ∧ 0 < c ∧ IsScalar c ∧ xs.take r.toNat = unicodeToUtf8 4 c ∧
+      r.toNat = (unicodeToUtf8 4 c).length ∧ r.toNat ≤ n := by
+  unfold utf8ToUnicode at h
+  cases hraw : utf8Raw xs n with
+  | oob => simp [hraw] at h
+  | ret r1 uc1 =>
+    simp only [hraw] at h
+    split at h
+    · simp at h; omega
+    · rename_i hns
+      simp only [Dec.ret.injEq] at h
+      obtain ⟨rfl, rfl⟩ := h
+      obtain ⟨c, hc, hp, hmx, ht, hl, hn⟩ := utf8Raw_canonical xs n r1 uc1 hraw hr
+      refine ⟨c, hc, hp, ⟨hmx, ?_⟩, ht, hl, hn⟩
+      intro hsur
+      apply hns
+      subst hc
+      -- a surrogate is encoded in 3 bytes
+      have h3 : (unicodeToUtf8 4 c).length = 3 := by
+        simp only [surrogateLo, surrogateHi] at hsur
+        rw [enc8_3 c 4 (by omega) (by omega) (by omega)]; rfl
+      refine ⟨by omega, ?_⟩
+      simp [isSurrogate, hsur]
+
+theorem utf8ToUnicode_progress (xs : List Nat) (n : Nat) (r : Int) (uc : Option Nat)
+    (h : utf8ToUnicode xs n = .ret r uc) (hr : r ≠ 0) : 1 ≤ r.natAbs ∧ r.natAbs ≤ n := by
+  unfold utf8ToUnicode at h
+  cases hraw : utf8Raw xs n with
+  | oob => simp [hraw] at h
+  | ret r1 uc1 =>
+    simp only [hraw] at h
+    split at h
+    · rename_i hs
+      simp only [Dec.ret.injEq] at h
+      have := utf8Raw_progress xs n r1 uc1 hraw (by omega)
+      omega
+    · simp only [Dec.ret.injEq] at h
+      have := utf8Raw_progress xs n r1 uc1 hraw (by omega)
+      omega
+
+theorem utf8ToUnicode_no_oob (xs : List Nat) (n : Nat) (hn : n ≤ xs.length) : utf8ToUnicode xs n ≠ .oob := by
+  unfold utf8ToUnicode
+  cases hraw : utf8Raw xs n with
+  | oob => exact absurd hraw (utf8Raw_no_oob xs n hn)
+  | ret r1 uc1 => simp only []; split <;> simp
+
+theorem utf8ToUnicode_zero (xs : List Nat) (n : Nat) (r : Int) (uc : Option Nat)
+    (h : utf8ToUnicode xs n = .ret r uc) : r = 0 ↔ (n = 0 ∨ xs[0]? = some 0) := by
+  unfold utf8ToUnicode at h
+  cases hraw : utf8Raw xs n with
+  | oob => simp [hraw] at h
+  | ret r1 uc1 =>
+    simp only [hraw] at h
+    have hz := utf8Raw_zero xs n r1 uc1 hraw
+    split at h
+    · rename_i hs
+      simp only [Dec.ret.injEq] at h
+      rw [← hz]; omega
+    · simp only [Dec.ret.injEq] at h
+      rw [← hz]; omega
+
+/-! ### `cesu8_to_unicode` -/
+
+theorem isHigh_false_of_scalar {c : Nat} (h : IsScalar c) : isHigh c = false := by
+  have := (isScalar_iff c).1 h
+  cases hs : isHigh c
+  · rfl
+  · have := (isHigh_iff c).1 hs; omega
+
+theorem isLow_false_of_scalar {c : Nat} (h : IsScalar c) : isLow c = false := by
+  have := (isScalar_iff c).1 h
+  cases hs : isLow c
+  · rfl
+  · have := (isLow_iff c).1 hs; omega
+
+theorem cesu8_encode (c : Nat) (hc : 0 < c) (hs : IsScalar c) (rest : List Nat) (n : Nat)
+    (hn : (unicodeToUtf8 4 c).length ≤ n) :
+    cesu8ToUnicode (unicodeToUtf8 4 c ++ rest) n = .ret (unicodeToUtf8 4 c).length (some c) := by
+  unfold cesu8ToUnicode
+  rw [utf8Raw_encode c hc hs.1 rest n hn]
+  simp [isHigh_false_of_scalar hs, isLow_false_of_scalar hs]
+
+/-- high and low surrogate of a supplementary code point (what `unicode_to_utf16` writes) -/
+def hiSur (c : Nat) : Nat := (c - 0x10000) / 1024 % 1024 + 0xD800
+def loSur (c : Nat) : Nat := (c - 0x10000) % 1024 + 0xDC00
+
+theorem enc8_len3 (c : Nat) (h1 : 0x7ff < c) (h2 : c ≤ 0xffff) : (unicodeToUtf8 4 c).length = 3 := by
+  rw [enc8_3 c 4 h1 h2 (by omega)]; rfl
+
+/-- CESU-8: two 3-byte surrogates decode to the supplementary code point. -/
+theorem cesu8_pair (c : Nat) (h1 : 0x10000 ≤ c) (h2 : c ≤ 0x10FFFF) (rest : List Nat) (n : Nat) (hn : 6 ≤ n) :
+    cesu8ToUnicode (unicodeToUtf8 4 (hiSur c) ++ unicodeToUtf8 4 (loSur c) ++ rest) n = .ret 6 (some c) := by
+  have hm : unicodeMax = 0x10FFFF := rfl
+  have hh : 0xD800 ≤ hiSur c ∧ hiSur c ≤ 0xDBFF := by unfold hiSur; omega
+  have hl : 0xDC00 ≤ loSur c ∧ loSur c ≤ 0xDFFF := by unfold loSur; omega
+  have l1 := enc8_len3 (hiSur c) (by omega) (by omega)
+  have l2 := enc8_len3 (loSur c) (by omega) (by omega)
+  unfold cesu8ToUnicode
+  rw [List.append_assoc, utf8Raw_encode (hiSur c) (by omega) (by omega) _ n (by omega)]
+  have e1 : isHigh (hiSur c) = true := (isHigh_iff _).2 hh
+  have e2 : isLow (loSur c) = true := (isLow_iff _).2 hl
+  have hd : (unicodeToUtf8 4 (hiSur c) ++ (unicodeToUtf8 4 (loSur c) ++ rest)).drop 3
+      = unicodeToUtf8 4 (loSur c) ++ rest := by
+    rw [← l1]; simp
+  have hn3 : ¬ n - 3 < 3 := by omega
+  simp only [l1, Option.getD_some, e1, and_true, hn3, if_false, hd]
+  rw [utf8Raw_encode (loSur c) (by omega) (by omega) rest (n - 3) (by omega)]
+  simp only [l2, Option.getD_some, e2]
+  simp [combineSurrogatePair, hiSur, loSur]
+  omega
+
+theorem cesu8_progress (xs : List Nat) (n : Nat) (r : Int) (uc : Option Nat)
+    (h : cesu8ToUnicode xs n = .ret r uc) (hr : r ≠ 0) : 1 ≤ r.natAbs ∧ r.natAbs ≤ n := by
+  unfold cesu8ToUnicode at h
+  cases hraw : utf8Raw xs n with
+  | oob => simp [hraw] at h
+  | ret r1 uc1 =>
+    simp only [hraw] at h
+    have hp := fun h0 => utf8Raw_progress xs n r1 uc1 hraw h0
+    split at h
+    · rename_i h3
+      have := hp (by omega)
+      split at h
+      · simp [invalid] at h; omega
+      · split at h
+        · simp at h
+        · split at h
+          · simp [invalid] at h; omega
+          · simp at h; omega
+    · split at h
+      · rename_i h3
+        have := hp (by omega)
+        simp [invalid] at h; omega
+      · simp only [Dec.ret.injEq] at h
+        have := hp (by omega)
+        omega
+
+theorem cesu8_no_oob (xs : List Nat) (n : Nat) (hn : n ≤ xs.length) : cesu8ToUnicode xs n ≠ .oob := by
+  unfold cesu8ToUnicode
+  cases hraw : utf8Raw xs n with
+  | oob => exact absurd hraw (utf8Raw_no_oob xs n hn)
+  | ret r1 uc1 =>
+    simp only []
+    split
+    · split
+      · simp [invalid]
+      · rename_i hn3
+        cases hraw2 : utf8Raw (xs.drop 3) (n - 3) with
+        | oob => exact absurd hraw2 (utf8Raw_no_oob _ _ (by simp; omega))
+        | ret r2 uc2 => simp only []; split <;> simp [invalid]
+    · split <;> simp [invalid]
+
+theorem cesu8_neg (xs : List Nat) (n : Nat) (r : Int) (uc : Option Nat)
+    (h : cesu8ToUnicode xs n = .ret r uc) (hr : r < 0) : uc = some unicodeRChar := by
+  unfold cesu8ToUnicode at h
+  cases hraw : utf8Raw xs n with
+  | oob => simp [hraw] at h
+  | ret r1 uc1 =>
+    simp only [hraw] at h
+    split at h
+    · split at h
+      · simp [invalid] at h; exact h.2.symm
+      · split at h
+        · simp at h
+        · split at h
+          · simp [invalid] at h; exact h.2.symm
+          · simp at h; omega
+    · split at h
+      · simp [invalid] at h; exact h.2.symm
+      · simp only [Dec.ret.injEq] at h
+        have := utf8Raw_neg xs n r1 uc1 hraw (by omega)
+        rw [← h.2, this]; rfl
+
+theorem cesu8_zero (xs : List Nat) (n : Nat) (r : Int) (uc : Option Nat)
+    (h : cesu8ToUnicode xs n = .ret r uc) : r = 0 ↔ (n = 0 ∨ xs[0]? = some 0) := by
+  unfold cesu8ToUnicode at h
+  cases hraw : utf8Raw xs n with
+  | oob => simp [hraw] at h
+  | ret r1 uc1 =>
+    simp only [hraw] at h
+    have hz := utf8Raw_zero xs n r1 uc1 hraw
+    rw [← hz]
+    split at h
+    · split at h
+      · simp [invalid] at h; omega
+      · split at h
+        · simp at h
+        · split at h
+          · simp [invalid] at h; omega
+          · simp at h; omega
+    · split at h
+      · simp [invalid] at h; omega
+      · simp only [Dec.ret.injEq] at h; omega
+
+/-- A positive return of `cesu8_to_unicode`: either the canonical UTF-8 form of a scalar value,
+or (return value 6) the two 3-byte surrogates of a supplementary code point. -/
+theorem cesu8_canonical (xs : List Nat) (n : Nat) (r : Int) (uc : Option Nat)
+    (h : cesu8ToUnicode xs n = .ret r uc) (hr : 0 < r) :
+    ∃ c, uc = some c ∧ 0 < c ∧ IsScalar c ∧ r.toNat ≤ n ∧
+      ((xs.take r.toNat = unicodeToUtf8 4 c ∧ r.toNat = (unicodeToUtf8 4 c).length) ∨
+       (r = 6 ∧ 0x10000 ≤ c ∧ xs.take 6 = unicodeToUtf8 4 (hiSur c) ++ unicodeToUtf8 4 (loSur c))) := by
+  have hm : unicodeMax = 0x10FFFF := rfl
+  unfold cesu8ToUnicode at h
+  cases hraw : utf8Raw xs n with
+  | oob => simp [hraw] at h
+  | ret r1 uc1 =>
+    simp only [hraw] at h
+    split at h
+    · rename_i h3
+      obtain ⟨c1, hc1, hp1, hmx1, ht1, hl1, hn1⟩ := utf8Raw_canonical xs n r1 uc1 hraw (by omega)
+      subst hc1
+      simp only [Option.getD_some] at h h3
+      have hh := (isHigh_iff c1).1 h3.2
+      split at h
+      · simp [invalid] at h; omega
+      · rename_i hn3
+        cases hraw2 : utf8Raw (xs.drop 3) (n - 3) with
+        | oob => simp [hraw2] at h
+        | ret r2 uc2 =>
+          simp only [hraw2] at h
+          split at h
+          · simp [invalid] at h; omega
+          · rename_i hc
+            simp only [not_or, Decidable.not_not, Bool.not_eq_true', Bool.not_eq_false'] at hc
+            obtain ⟨c2, hc2, hp2, hmx2, ht2, hl2, hn2⟩ := utf8Raw_canonical _ _ r2 uc2 hraw2 (by omega)
+            subst hc2
+            simp only [Option.getD_some] at h hc
+            have hlw := (isLow_iff c2).1 (by simpa using hc.2)
+            simp only [Dec.ret.injEq] at h
+            obtain ⟨rfl, rfl⟩ := h
+            have hr13 : r1.toNat = 3 := by omega
+            have hr23 : r2.toNat = 3 := by omega
+            rw [hr13] at ht1; rw [hr23] at ht2
+            refine ⟨_, rfl, ?_, ?_, ?_, .inr ⟨rfl, ?_, ?_⟩⟩
+            · simp only [combineSurrogatePair]; omega
+            · rw [isScalar_iff]; simp only [combineSurrogatePair]; omega
+            · show (6 : Int).toNat ≤ n
+              simp; omega
+            · simp only [combineSurrogatePair]; omega
+            · have e1 : hiSur (combineSurrogatePair c1 c2) = c1 := by
+                simp only [hiSur, combineSurrogatePair]; omega
+              have e2 : loSur (combineSurrogatePair c1 c2) = c2 := by
+                simp only [loSur, combineSurrogatePair]; omega
+              rw [e1, e2, ← ht1, ← ht2, show (6 : Nat) = 3 + 3 from rfl, List.take_add]
+    · rename_i h3
+      split at h
+      · simp [invalid] at h; omega
+      · rename_i hl3
+        simp only [Dec.ret.injEq] at h
+        obtain ⟨rfl, rfl⟩ := h
+        obtain ⟨c1, hc1, hp1, hmx1, ht1, hl1, hn1⟩ := utf8Raw_canonical xs n r1 uc1 hraw hr
+        subst hc1
+        simp only [Option.getD_some] at h3 hl3 ⊢
+        refine ⟨c1, rfl, hp1, ⟨hmx1, ?_⟩, hn1, .inl ⟨ht1, hl1⟩⟩
+        intro hsur
+        simp only [surrogateLo, surrogateHi] at hsur
+        have h3' : r1 = 3 := by
+          have := enc8_len3 c1 (by omega) (by omega); omega
+        by_cases hhi : c1 ≤ 0xDBFF
+        · exact h3 ⟨h3', (isHigh_iff c1).2 ⟨hsur.1, hhi⟩⟩
+        · exact hl3 ⟨h3', (isLow_iff c1).2 ⟨by omega, hsur.2⟩⟩
+
+/-! ### UTF-16 -/
+
+theorem enc16_len (be : Bool) (v : Nat) : (enc16 be v).length = 2 := by
+  cases be <;> rfl
+
+theorem enc16_1 (be : Bool) (c r : Nat) (h : c ≤ 0xffff) (hr : 2 ≤ r) : unicodeToUtf16 be r c = enc16 be c := by
+  have h1 : ¬ c > 0xffff := by omega
+  have h2 : ¬ r < 2 := by omega
+  have : c % 65536 = c := Nat.mod_eq_of_lt (by omega)
+  simp [unicodeToUtf16, h1, h2, this]
+
+theorem enc16_2 (be : Bool) (c r : Nat) (h : 0xffff < c) (hr : 4 ≤ r) :
+    unicodeToUtf16 be r c = enc16 be (hiSur c) ++ enc16 be (loSur c) := by
+  have h2 : ¬ r < 4 := by omega
+  simp [unicodeToUtf16, h, h2, hiSur, loSur]
+
+theorem dec16_enc16 (be : Bool) (v : Nat) (hv : v < 65536) (rest : List Nat) :
+    ∃ a b, enc16 be v ++ rest = a :: b :: rest ∧ dec16 be a b = v := by
+  cases be
+  · exact ⟨v % 256, v / 256 % 256, rfl, by simp [dec16]; omega⟩
+  · exact ⟨v / 256 % 256, v % 256, rfl, by simp [dec16]; omega⟩
+
+theorem utf16_encode (be : Bool) (c : Nat) (hs : IsScalar c) (rest : List Nat) (n : Nat)
+    (hn : (unicodeToUtf16 be 4 c).length ≤ n) :
+    utf16ToUnicode be (unicodeToUtf16 be 4 c ++ rest) n = .ret (unicodeToUtf16 be 4 c).length (some c) := by
+  have hm : unicodeMax = 0x10FFFF := rfl
+  have hsc := (isScalar_iff c).1 hs
+  by_cases h1 : c ≤ 0xffff
+  · rw [enc16_1 be c 4 h1 (by omega)] at hn ⊢
+    rw [enc16_len] at hn ⊢
+    obtain ⟨a, b, e, hd⟩ := dec16_enc16 be c (by omega) rest
+    rw [e]
+    have hn0 : n ≠ 0 := by omega
+    have hn1 : n ≠ 1 := by omega
+    have hh : isHigh c = false := isHigh_false_of_scalar hs
+    have hsu : isSurrogate c = false := isSurrogate_false_of_scalar hs
+    have hmx : ¬ c > unicodeMax := by omega
+    unfold utf16ToUnicode
+    simp only [hn0, hn1, if_false, List.getElem?_cons_zero, List.getElem?_cons_succ, hd, hh, utf16Final, hsu, hmx,
+      Bool.false_eq_true, or_self, ↓reduceIte]
+  · rw [enc16_2 be c 4 (by omega) (by omega)] at hn ⊢
+    simp only [List.length_append, enc16_len] at hn ⊢
+    have hh : 0xD800 ≤ hiSur c ∧ hiSur c ≤ 0xDBFF := by unfold hiSur; omega
+    have hl : 0xDC00 ≤ loSur c ∧ loSur c ≤ 0xDFFF := by unfold loSur; omega
+    rw [List.append_assoc]
+    obtain ⟨a, b, e, hd⟩ := dec16_enc16 be (hiSur c) (by omega) (enc16 be (loSur c) ++ rest)
+    obtain ⟨a2, b2, e2, hd2⟩ := dec16_enc16 be (loSur c) (by omega) rest
+    rw [e, e2]
+    have hn0 : n ≠ 0 := by omega
+    have hn1 : n ≠ 1 := by omega
+    have hn4 : n ≥ 4 := by omega
+    have e1 : isHigh (hiSur c) = true := (isHigh_iff _).2 hh
+    have e2' : isLow (loSur c) = true := (isLow_iff _).2 hl
+    have hcomb : combineSurrogatePair (hiSur c) (loSur c) = c := by
+      simp only [combineSurrogatePair, hiSur, loSur]; omega
+    have hsu : isSurrogate c = false := isSurrogate_false_of_scalar hs
+    have hmx : ¬ c > unicodeMax := by omega
+    unfold utf16ToUnicode
+    simp only [hn0, hn1, hn4, if_false, if_true, List.getElem?_cons_zero, List.getElem?_cons_succ, hd, hd2, e1, e2',
+      hcomb, utf16Final, hsu, hmx, Bool.false_eq_true, or_self, ↓reduceIte]
+
+theorem utf16_progress (be : Bool) (xs : List Nat) (n : Nat) (r : Int) (uc : Option Nat)
+    (h : utf16ToUnicode be xs n = .ret r uc) (hr : r ≠ 0) : 1 ≤ r.natAbs ∧ r.natAbs ≤ n := by
+  unfold utf16ToUnicode at h
+  by_cases hn0 : n = 0
+  · simp [hn0] at h; omega
+  by_cases hn1 : n = 1
+  · simp [hn1, invalid] at h; omega
+  simp only [hn0, hn1, if_false] at h
+  split at h
+  · split at h
+    · split at h
+      · rename_i hn4
+        split at h
+        · split at h
+          · simp only [utf16Final] at h; split at h <;> simp [invalid] at h <;> omega
+          · simp [invalid] at h; omega
+        · simp at h
+      · simp [invalid] at h; omega
+    · simp only [utf16Final] at h; split at h <;> simp [invalid] at h <;> omega
+  · simp at h
+
+theorem utf16_zero (be : Bool) (xs : List Nat) (n : Nat) (r : Int) (uc : Option Nat)
+    (h : utf16ToUnicode be xs n = .ret r uc) : r = 0 ↔ n = 0 := by
+  constructor
+  · intro hr
+    by_cases hn0 : n = 0
+    · exact hn0
+    · unfold utf16ToUnicode at h
+      by_cases hn1 : n = 1
+      · simp [hn1, invalid] at h; omega
+      simp only [hn0, hn1, if_false] at h
+      split at h
+      · split at h
+        · split at h
+          · split at h
+            · split at h
+              · simp only [utf16Final] at h; split at h <;> simp [invalid] at h <;> omega
+              · simp [invalid] at h; omega
+            · simp at h
+          · simp [invalid] at h; omega
+        · simp only [utf16Final] at h; split at h <;> simp [invalid] at h <;> omega
+      · simp at h
+  · intro hn0
+    simp [utf16ToUnicode, hn0] at h; omega
+
+theorem utf16_neg (be : Bool) (xs : List Nat) (n : Nat) (r : Int) (uc : Option Nat)
+    (h : utf16ToUnicode be xs n = .ret r uc) (hr : r < 0) : uc = some unicodeRChar := by
+  unfold utf16ToUnicode at h
+  by_cases hn0 : n = 0
+  · simp [hn0] at h; omega
+  by_cases hn1 : n = 1
+  · simp [hn1, invalid] at h; exact h.2.symm
+  simp only [hn0, hn1, if_false] at h
+  split at h
+  · split at h
+    · split at h
+      · split at h
+        · split at h
+          · simp only [utf16Final] at h; split at h <;> simp [invalid] at h
+            · exact h.2.symm
+            · omega
+          · simp [invalid] at h; exact h.2.symm
+        · simp at h
+      · simp [invalid] at h; exact h.2.symm
+    · simp only [utf16Final] at h; split at h <;> simp [invalid] at h
+      · exact h.2.symm
+      · omega
+  · simp at h
+
+theorem utf16_no_oob (be : Bool) (xs : List Nat) (n : Nat) (hn : n ≤ xs.length) : utf16ToUnicode be xs n ≠ .oob := by
+  unfold utf16ToUnicode
+  by_cases hn0 : n = 0
+  · simp [hn0]
+  by_cases hn1 : n = 1
+  · simp [hn1, invalid]
+  simp only [hn0, hn1, if_false]
+  have h0 : xs[0]? = some (xs[0]'(by omega)) := List.getElem?_eq_getElem _
+  have h1 : xs[1]? = some (xs[1]'(by omega)) := List.getElem?_eq_getElem _
+  rw [h0, h1]
+  simp only []
+  split
+  · split
+    · rename_i hn4
+      have h2 : xs[2]? = some (xs[2]'(by omega)) := List.getElem?_eq_getElem _
+      have h3 : xs[3]? = some (xs[3]'(by omega)) := List.getElem?_eq_getElem _
+      rw [h2, h3]
+      simp only []
+      split
+      · simp only [utf16Final]; split <;> simp [invalid]
+      · simp [invalid]
+    · simp [invalid]
+  · simp only [utf16Final]; split <;> simp [invalid]
+
+theorem enc16_dec16 (be : Bool) (a b : Nat) (ha : a < 256) (hb : b < 256) : enc16 be (dec16 be a b) = [a, b] := by
+  cases be <;> simp [enc16, dec16] <;> omega
+
+theorem dec16_lt (be : Bool) (a b : Nat) (ha : a < 256) (hb : b < 256) : dec16 be a b < 65536 := by
+  cases be <;> simp [dec16] <;> omega
+
+theorem mem_of_getElem? {xs : List Nat} {i a : Nat} (h : xs[i]? = some a) : a ∈ xs :=
+  List.mem_of_getElem? h
+
+/-- A positive return of `utf16_to_unicode` on a byte string: the bytes consumed are exactly what
+`unicode_to_utf16` writes for the scalar value stored. -/
+theorem utf16_canonical (be : Bool) (xs : List Nat) (n : Nat) (r : Int) (uc : Option Nat)
+    (hbytes : ∀ b ∈ xs, b < 256)
+    (h : utf16ToUnicode be xs n = .ret r uc) (hr : 0 < r) :
+    ∃ c, uc = some c ∧ IsScalar c ∧ xs.take r.toNat = unicodeToUtf16 be 4 c ∧
+      r.toNat = (unicodeToUtf16 be 4 c).length ∧ r.toNat ≤ n := by
+  have hm : unicodeMax = 0x10FFFF := rfl
+  unfold utf16ToUnicode at h
+  by_cases hn0 : n = 0
+  · simp [hn0] at h; omega
+  by_cases hn1 : n = 1
+  · simp [hn1, invalid] at h; omega
+  simp only [hn0, hn1, if_false] at h
+  split at h
+  · rename_i a b h0 h1
+    have ha := hbytes a (mem_of_getElem? h0)
+    have hb := hbytes b (mem_of_getElem? h1)
+    have hlt := dec16_lt be a b ha hb
+    split at h
+    · rename_i hhigh
+      have hh := (isHigh_iff _).1 hhigh
+      split at h
+      · rename_i hn4
+        split at h
+        · rename_i c d h2 h3
+          have hc := hbytes c (mem_of_getElem? h2)
+          have hd := hbytes d (mem_of_getElem? h3)
+          split at h
+          · rename_i hlow
+            have hl := (isLow_iff _).1 hlow
+            have hcomb : 0x10000 ≤ combineSurrogatePair (dec16 be a b) (dec16 be c d) ∧
+                combineSurrogatePair (dec16 be a b) (dec16 be c d) ≤ 0x10FFFF := by
+              simp only [combineSurrogatePair]; omega
+            have hns : isSurrogate (combineSurrogatePair (dec16 be a b) (dec16 be c d)) = false := by
+              cases hs : isSurrogate (combineSurrogatePair (dec16 be a b) (dec16 be c d))
+              · rfl
+              · have := (isSurrogate_iff _).1 hs; omega
+            have hmx : ¬ combineSurrogatePair (dec16 be a b) (dec16 be c d) > unicodeMax := by omega
+            simp only [utf16Final, hns, hmx, Bool.false_eq_true, or_self, ↓reduceIte, Dec.ret.injEq] at h
+            obtain ⟨rfl, rfl⟩ := h
+            refine ⟨_, rfl, ?_, ?_, ?_, ?_⟩
+            · rw [isScalar_iff]; omega
+            · rw [enc16_2 be _ 4 (by omega) (by omega)]
+              have e1 : hiSur (combineSurrogatePair (dec16 be a b) (dec16 be c d)) = dec16 be a b := by
+                simp only [hiSur, combineSurrogatePair]; omega
+              have e2 : loSur (combineSurrogatePair (dec16 be a b) (dec16 be c d)) = dec16 be c d := by
+                simp only [loSur, combineSurrogatePair]; omega
+              rw [e1, e2, enc16_dec16 be a b ha hb, enc16_dec16 be c d hc hd]
+              exact take4 h0 h1 h2 h3
+            · rw [enc16_2 be _ 4 (by omega) (by omega)]; simp [enc16_len]
+            · show (4 : Int).toNat ≤ n
+              simp; omega
+          · simp [invalid] at h; omega
+        · simp at h
+      · simp [invalid] at h; omega
+    · rename_i hnh
+      simp only [utf16Final] at h
+      split at h
+      · simp [invalid] at h; omega
+      · rename_i hok
+        simp only [not_or, Bool.not_eq_true] at hok
+        simp only [Dec.ret.injEq] at h
+        obtain ⟨rfl, rfl⟩ := h
+        refine ⟨_, rfl, ?_, ?_, ?_, ?_⟩
+        · rw [isScalar_iff]
+          refine ⟨by omega, ?_⟩
+          intro hs
+          have := (isSurrogate_iff (dec16 be a b)).2 hs
+          rw [this] at hok; exact absurd hok.1 (by simp)
+        · rw [enc16_1 be _ 4 (by omega) (by omega), enc16_dec16 be a b ha hb]
+          exact take2 h0 h1
+        · rw [enc16_1 be _ 4 (by omega) (by omega)]; simp [enc16_len]
+        · show (2 : Int).toNat ≤ n
+          simp; omega
+  · simp at h
+
 end LA.Unicode
